@@ -300,7 +300,7 @@ static Reg r_elldeg("elldeg", [](const Args& a) {
     double cnd = 1 + cf + (i == 3 && !isinfq(T) && T > 0 ? (double)fabsq(asinhq(T) - asinhq(ex)) : 0);
     LD tol = 4 * ulp((double)want) + 32 * EPS * cnd * sc * (180 / PIl) + 4 * DMIN;
     if (!(fabsl((LD)std::fabs(out[i]) - want) <= tol && (out[i] == 0 || std::signbit(out[i]) == std::signbit(phi))))
-      bad("latitude-degrees", std::string(AUXN[i + 1]) + "(phi=" + scid(phi) + " deg) = " + scid(out[i]) + " want " + sci(want) + " (f=" + scid(f) + ")");
+      bad("latitude-degrees", aux_class(f, 0, i + 1) + std::string(AUXN[i + 1]) + "(phi=" + scid(phi) + " deg) = " + scid(out[i]) + " want " + sci(want) + " (f=" + scid(f) + ")");
     // inverse composes to the identity, to the accuracy the degree representation of the intermediate allows
     LD dl = (T == 0 || isinfq(T)) ? 1 : (LD)(auxdlog(E, i + 1, T));                // d log tan(aux) / d log tan(phi)
     LD scphi = (LD)(T / (1 + T * T)); if (isinfq(T)) scphi = 0;
